@@ -16,8 +16,8 @@ Proof.
   split; [valid_case|]. split; [reflexivity|]. vm_compute. reflexivity.
 Qed.
 Example legacy_convert_output :
-  run_with Legacy.cfg (mk_case Convert TUInt32 TInt32 0 0 [4000000000]) = [6; -294967296] /\
-  run (mk_case Convert TUInt32 TInt32 0 0 [4000000000]) = [-1; 0].
+  run1 Legacy.cfg Convert TUInt32 TInt32 4000000000 = [6; -294967296] /\
+  run1 gen_cfg Convert TUInt32 TInt32 4000000000 = [-1; 0].
 Proof. split; vm_compute; reflexivity. Qed.
 
 (* Double(-1.6).cast(Int32) was -1 (13832806255468478874 = bits of -1.6), NaN became 0
@@ -30,10 +30,12 @@ Proof.
   split; [valid_case|]. split; [reflexivity|]. vm_compute. reflexivity.
 Qed.
 Example legacy_cast_outputs :
-  run_with Legacy.cfg (mk_case Cast TDouble TInt32 0 0 [13832806255468478874; 9221120237041090560]) = [6; -1; 6; 0] /\
-  run (mk_case Cast TDouble TInt32 0 0 [13832806255468478874; 9221120237041090560]) = [6; -2; -1; 0] /\
-  run_with Legacy.cfg (mk_case Cast TDouble TUInt64 0 0 [5075496445960327109]) = [9; 18446744073709551615] /\
-  run (mk_case Cast TDouble TUInt64 0 0 [5075496445960327109]) = [-1; 0].
+  run1 Legacy.cfg Cast TDouble TInt32 13832806255468478874 = [6; -1] /\
+  run1 gen_cfg Cast TDouble TInt32 13832806255468478874 = [6; -2] /\
+  run1 Legacy.cfg Cast TDouble TInt32 9221120237041090560 = [6; 0] /\
+  run1 gen_cfg Cast TDouble TInt32 9221120237041090560 = [-1; 0] /\
+  run1 Legacy.cfg Cast TDouble TUInt64 5075496445960327109 = [9; 18446744073709551615] /\
+  run1 gen_cfg Cast TDouble TUInt64 5075496445960327109 = [-1; 0].
 Proof. repeat split; vm_compute; reflexivity. Qed.
 
 Lemma legacy_refuted_cast_nan :
@@ -45,14 +47,20 @@ Qed.
 
 (* UInt64(5).cast(Int32) was Empty: there was no arm *)
 Lemma legacy_refuted_cast_missing :
-  exists c, valid c /\ c_op c = Cast /\ run_with Legacy.cfg c = [-1; 0] /\ run c = [6; 5] /\
-            oracle c (run_with Legacy.cfg c) = false.
+  exists c, valid c /\ c_op c = Cast /\
+            run1 Legacy.cfg Cast (c_src c) (c_tgt c) 5 = [-1; 0] /\ run1 gen_cfg Cast (c_src c) (c_tgt c) 5 = [6; 5] /\
+            payloads c = [5] /\ oracle c (run_with Legacy.cfg c) = false.
 Proof.
   exists (mk_case Cast TUInt64 TInt32 0 0 [5]).
   split; [valid_case|]. repeat split; vm_compute; reflexivity.
 Qed.
 
 Lemma legacy_cfg_not_ok : cfg_ok Legacy.cfg = false.
+Proof. vm_compute. reflexivity. Qed.
+
+(* the canonical (run-length encoded) output of a range: all of Byte cast to SByte is 128 values
+   unchanged (result - source = 0), then 128 times no result *)
+Example rle_output_ex : run (mk_case Cast TByte TSByte 0 256 []) = [128; 2; 0; 128; -1; 0].
 Proof. vm_compute. reflexivity. Qed.
 
 (* hypotheses of the theorems are satisfiable by non-trivial cases *)
